@@ -2,6 +2,7 @@ package leader
 
 import (
 	"context"
+	"sync"
 	"time"
 
 	"github.com/nats-io/nats.go"
@@ -465,21 +466,28 @@ func (a *natsKeyValueAdapter) Watch(key string, opts ...interface{}) (Watcher, e
 
 type natsWatcherAdapter struct {
 	watcher nats.KeyWatcher
+
+	once      sync.Once
+	entryChan chan Entry
 }
 
+// Updates returns one stable channel: the forwarding goroutine is started on the first call only,
+// so a consumer that calls Updates() before every receive neither loses events nor leaks goroutines.
 func (a *natsWatcherAdapter) Updates() <-chan Entry {
-	entryChan := make(chan Entry, 1)
-	go func() {
-		defer close(entryChan)
-		for natsEntry := range a.watcher.Updates() {
-			if natsEntry != nil {
-				entryChan <- &natsEntryAdapter{entry: natsEntry}
-			} else {
-				entryChan <- nil
+	a.once.Do(func() {
+		a.entryChan = make(chan Entry, 1)
+		go func() {
+			defer close(a.entryChan)
+			for natsEntry := range a.watcher.Updates() {
+				if natsEntry != nil {
+					a.entryChan <- &natsEntryAdapter{entry: natsEntry}
+				} else {
+					a.entryChan <- nil
+				}
 			}
-		}
-	}()
-	return entryChan
+		}()
+	})
+	return a.entryChan
 }
 
 func (a *natsWatcherAdapter) Stop() {
